@@ -765,7 +765,7 @@ func fieldOfStructValue(sv ssa.Value, field int, depth int) (ssa.Value, bool) {
 		}
 	case *ssa.Call:
 		g := x.Call.StaticCallee()
-		if g == nil || g.Pkg == nil || g.Pkg.Pkg.Path() != twigPath || len(g.Blocks) == 0 || g.Signature.Results().Len() != 1 {
+		if g == nil || !isTwigFn(g) || len(g.Blocks) == 0 || g.Signature.Results().Len() != 1 {
 			return nil, false
 		}
 		var out ssa.Value
@@ -907,7 +907,16 @@ type callerVal struct {
 // struct not built locally).
 func callerValues(p *ssa.Parameter, field int) (out []callerVal, ok bool) {
 	fn := p.Parent()
-	if curWorld == nil || fn == nil || fn.Object() == nil || fn.Object().Exported() {
+	if curWorld == nil || fn == nil {
+		return nil, false
+	}
+	obj := fn.Object()
+	if obj == nil {
+		if o := fn.Origin(); o != nil {
+			obj = o.Object() // an instantiation of a generic helper
+		}
+	}
+	if obj == nil || obj.Exported() {
 		return nil, false
 	}
 	idx := -1
@@ -921,7 +930,7 @@ func callerValues(p *ssa.Parameter, field int) (out []callerVal, ok bool) {
 		return nil, false
 	}
 	for _, e := range in {
-		if e.Site == nil || e.Caller.Func.Package() != fn.Package() {
+		if e.Site == nil || !curWorld.inPkg(e.Caller.Func) {
 			return nil, false
 		}
 		cc := e.Site.Common()
@@ -1019,7 +1028,7 @@ func condImpliesR(v ssa.Value, truth bool, match factMatcher, resolve func(ssa.V
 			continue
 		}
 		g := c.Call.StaticCallee()
-		if g == nil || depth > 2 || g.Pkg == nil || g.Pkg.Pkg.Path() != twigPath || len(g.Blocks) == 0 {
+		if g == nil || depth > 2 || !isTwigFn(g) || len(g.Blocks) == 0 {
 			continue
 		}
 		if g.Signature.Results().Len() != 1 || !types.Identical(g.Signature.Results().At(0).Type().Underlying(), types.Typ[types.Bool]) {
